@@ -35,6 +35,32 @@ class NFA:
     def key(self):
         return (self.states, self.starts, self.finals, self.trans, self.alpha)
 
+    def sample_words(self, rng, count=6, maxlen=12):
+        """words read along random walks from a start state (members when the walk stops in a final state), each with
+        a one-symbol perturbation: long words that exhaustive small bounds do not reach"""
+        out = []
+        alpha = sorted(self.alpha, key=repr)
+        succ = {}
+        for p, a, q in self.trans:
+            succ.setdefault(p, []).append((a, q))
+        for _ in range(count):
+            if not self.starts:
+                break
+            cur = rng.choice(sorted(self.starts, key=repr))
+            w = []
+            for _ in range(rng.randint(5, maxlen * 2)):
+                if cur not in succ or len(w) >= maxlen:
+                    break
+                a, cur = rng.choice(sorted(succ[cur], key=repr))
+                if a is not EPS:
+                    w.append(a)
+            out.append(tuple(w))
+            if w and alpha:
+                w2 = list(w)
+                w2[rng.randrange(len(w2))] = rng.choice(alpha)
+                out.append(tuple(w2))
+        return out
+
     def ecl1(self, p):
         r = self._ecl.get(p)
         if r is None:
